@@ -49,7 +49,15 @@ NSYNC_CPP_START_
    notifying the parent should not perform the disconnection of that child, but
    should instead wait for the "children" list to become empty via
    WAIT_FOR_NO_CHILDREN().  WAKEUP_NO_CHILDREN() should be used whenever this
-   condition could become true.  */
+   condition could become true.
+
+   Several threads may be disconnecting *n at once (two calls to notify(), or
+   a notification arriving from an ancestor and a call to nsync_note_free()),
+   and each may have released n->note_mu while it still holds the value it
+   read from n->parent.  That parent stays allocated only while *n is on its
+   "children" list, so *n is removed from the list only by a thread that finds
+   n->disconnecting==1, its own contribution:  the last of the disconnecting
+   threads performs the disconnection.  */
 
 /* Set the expiry time in *n to t */
 static void set_expiry_time (nsync_note n, nsync_time t) {
@@ -77,8 +85,11 @@ static int no_children (const void *v) {
 #define WAKEUP_NO_CHILDREN(n_) nsync_cv_broadcast (&(n_)->no_children_cv)
 */
 
-/* Notify *n and all its descendants that are not already disconnnecting.
-   n->note_mu is held.  May release and reacquire n->note_mu.
+/* Notify *n and all its descendants that are not already disconnnecting,
+   unless *n is notified already.  Then disconnect *n from *parent, unless
+   another thread is also disconnecting *n, in which case that thread will.
+   n->note_mu is held, and n->disconnecting counts the caller.
+   May release and reacquire n->note_mu.
    parent->note_mu is held if parent != NULL. */
 static void note_notify_child (nsync_note n, nsync_note parent) {
 	nsync_time t;
@@ -98,17 +109,19 @@ static void note_notify_child (nsync_note n, nsync_note parent) {
 			next = nsync_dll_next_ (n->children, p);
 			nsync_mu_lock (&child->note_mu);
 			if (child->disconnecting == 0) {
+				child->disconnecting++;
 				note_notify_child (child, n);
+				child->disconnecting--;
 			}
 			nsync_mu_unlock (&child->note_mu);
 		}
 		WAIT_FOR_NO_CHILDREN (no_children, n);
-		if (parent != NULL) {
-			parent->children = nsync_dll_remove_ (parent->children,
-						              &n->parent_child_link);
-			WAKEUP_NO_CHILDREN (parent);
-			n->parent = NULL;
-		}
+	}
+	if (parent != NULL && n->disconnecting == 1) {
+		parent->children = nsync_dll_remove_ (parent->children,
+					              &n->parent_child_link);
+		WAKEUP_NO_CHILDREN (parent);
+		n->parent = NULL;
 	}
 }
 
